@@ -65,8 +65,8 @@ where P::Encoding: Clone + std::fmt::Debug, P: Problem<Objective = SingleObjecti
     let pops = state.populations();
     for (k, ind) in pops.current().iter().enumerate() {
         if ind.is_evaluated() && ind.objective().value() != f(ind.solution()) {
-            eprintln!("COUNTEREXAMPLE op={name} seed={seed}: individual {k} was {:?} (objective {}), is now {:?} and still reports {} although f(solution) = {}",
-                      solutions[k], f(&solutions[k]), ind.solution(), ind.objective().value(), f(ind.solution()));
+            eprintln!("COUNTEREXAMPLE op={name} seed={seed}: individual {k} (input at that position: {:?}) is now {:?} and reports {} although f(solution) = {}",
+                      solutions.get(k), ind.solution(), ind.objective().value(), f(ind.solution()));
             panic!("a component left a stale objective value on a changed solution");
         }
     }
@@ -94,6 +94,30 @@ pub fn c05_native_components_keep_objectives_fresh() {
         let perms: Vec<Vec<usize>> = vec![vec![0, 1, 2, 3, 4], vec![4, 3, 2, 1, 0], vec![2, 0, 4, 1, 3]];
         let pops: Vec<(&str, Box<dyn Component<Perm5>>)> = vec![("SwapMutation(2)", SwapMutation::new(2).unwrap()), ("ScrambleMutation(rm=0.5)", ScrambleMutation::new(0.5))];
         for (name, op) in &pops { cases += check(&Perm5, name, op.as_ref(), &perms, &|s: &Vec<usize>| weighted(s), seed); }
+    }
+    // recombination drivers on EVALUATED parents with distinct objective values: whatever is passed through, recombined, dropped
+    // or re-ordered, an individual that reports a value reports the value of ITS solution (crossover probabilities 0, strictly
+    // between 0 and 1, and 1; one or both children inserted; even and odd numbers of parents)
+    {
+        use crate::components::recombination::{ArithmeticCrossover, CycleCrossover, NPointCrossover, UniformCrossover};
+        for seed in 0..12u64 {
+            for parents in [2usize, 5, 6, 9] {
+                let real: Vec<Vec<f64>> = (0..parents).map(|k| vec![dom[0].start + 0.1 * k as f64, dom[1].start + 0.07 * (k * k) as f64, dom[2].start + 0.5]).collect();
+                let perms: Vec<Vec<usize>> = (0..parents).map(|k| { let mut p = vec![0, 1, 2, 3, 4]; p.rotate_left(k % 5); if k >= 5 { p.swap(0, 1); } p }).collect();
+                for pc in [0.0, 0.3, 0.5, 0.8, 1.0] {
+                    for both in [false, true] {
+                        let ops: Vec<(String, Box<dyn Component<Plane>>)> = vec![
+                            (format!("UniformCrossover(pc={pc}, insert_both={both})"), UniformCrossover::new(pc, both)),
+                            (format!("NPointCrossover(1, pc={pc}, insert_both={both})"), NPointCrossover::new(1, pc, both)),
+                            (format!("ArithmeticCrossover(pc={pc}, insert_both={both})"), ArithmeticCrossover::new(pc, both)),
+                        ];
+                        for (name, op) in &ops { cases += check(&Plane, name, op.as_ref(), &real, &|s: &Vec<f64>| plane(s), seed); }
+                        let cop: Box<dyn Component<Perm5>> = CycleCrossover::new(pc, both);
+                        cases += check(&Perm5, &format!("CycleCrossover(pc={pc}, insert_both={both})"), cop.as_ref(), &perms, &|s: &Vec<usize>| weighted(s), seed);
+                    }
+                }
+            }
+        }
     }
     println!("c05_native_components_keep_objectives_fresh: {} component executions checked", cases);
 }
